@@ -480,7 +480,7 @@ impl<TokenIter: Iterator<Item = Result<Token>>> Iterator for Parser<TokenIter> {
     }
 }
 
-fn create_syntax_binding() -> Rc<LexicalScope<Transformer>> {
+pub(crate) fn create_syntax_binding() -> Rc<LexicalScope<Transformer>> {
     thread_local! {static BINDINGS: Rc<LexicalScope<Transformer>> = {
             let mut parser = Parser::from_lexer_primary_syntax(Lexer::from_char_stream(
                 include_str!("grammar.sld").chars(),
